@@ -1373,7 +1373,7 @@ def run(ctx):
         ctx.violation(key, what, rep)
     ctx.note('pool call histories with in-place mutated lists: {} calls'.format(hres['n']))
     # ---- long element lists against one cache directory (fresh processes)
-    ll_items = [(300, 3, 4)] if ctx.tier == 'quick' else [(120, 3, 4), (300, 3, 4), (1100, 4, 5)]
+    ll_items = [(300, 3, 4), (1100, 4, 5)] if ctx.tier == 'quick' else [(120, 3, 4), (300, 3, 4), (1100, 4, 5), (2100, 5, 5)]
     ll_calls = 0
     for it_, lres in zip(ll_items, common.pmap_fresh(long_list_task, ll_items, ctx.jobs)):
         ll_calls += lres['n']
